@@ -230,6 +230,8 @@ def gen_from(draw, p):
 def mutate(draw, t):
     tag = t[0]
     r = draw(st.integers(0, 9))
+    if tag == 's' and r < 3:
+        return ['bytes', t[1]]        # the same text as bytes: a str pattern / literal does not match it
     if tag == 'dict' and t[1] and r < 7:
         entries = [list(e) for e in t[1]]
         i = draw(st.integers(0, len(entries) - 1))
